@@ -2,7 +2,7 @@
 
 SETUP_FLAVOURS = ["debug", "release", "asan", "valgrind"]
 HOOK_COMMITS = ["7097985", "11c3a47", "f0bf0f9", "022e47b", "ab4a121", "6b1e3cb", "5c464db"]
-SETUP_EXTRAS = ["roto-bin", "cli-host"]
+SETUP_EXTRAS = ["roto-bin", "cli-host", "miri-list"]
 NOT_YET = {}
 
 DIFF_ASSUME = [
